@@ -59,6 +59,8 @@ type Analysis struct {
 	// canonical description of the arguments); each call is recorded
 	uninterp map[*ssa.Function]string
 	ucalls   []UCall
+	// noInline: module functions that are not interpreted (treated as opaque, still logged)
+	noInline func(*ssa.Function) bool
 	// logCalls: record every evaluated call (static, invoke, dynamic) with its abstract arguments
 	logCalls bool
 	calls    []*CallRec
